@@ -518,8 +518,13 @@ func (p *Packer) validSymlink(root, path, target string) (bool, error) {
 		absTarget = filepath.Join(filepath.Dir(absPath), target)
 	}
 
-	// Target falls within root.
-	if strings.HasPrefix(absTarget, absRoot) {
+	// Target falls within root. Compare whole path segments: a sibling of
+	// root whose name merely starts with root's name is outside.
+	rootPrefix := absRoot
+	if !strings.HasSuffix(rootPrefix, string(filepath.Separator)) {
+		rootPrefix += string(filepath.Separator)
+	}
+	if absTarget == absRoot || strings.HasPrefix(absTarget, rootPrefix) {
 		return true, nil
 	}
 
